@@ -337,6 +337,28 @@ func classifyMapRange(c *core.Ctx, s *mapRangeSite) (idiom string, bad string) {
 					switch inf.Types[lx.X].Type.Underlying().(type) {
 					case *types.Map:
 						idioms["I1"] = true
+						// distinct entries must land on distinct keys of the outer map: the index is the range key itself and
+						// the key variable is not rewritten in the body.  `k = canonical(k); dst[k] = v` lets two entries
+						// collide, and which one is kept follows the order they were visited in
+						if dst := core.ObjOf(inf, lx.X); dst != nil && !local[dst] && s.key != nil {
+							ko := core.ObjOf(inf, s.key)
+							if ko != nil && core.ObjOf(inf, lx.Index) == ko {
+								rewritten := false
+								ast.Inspect(s.body, func(m ast.Node) bool {
+									if as2, ok := m.(*ast.AssignStmt); ok {
+										for _, l2 := range as2.Lhs {
+											if core.ObjOf(inf, l2) == ko {
+												rewritten = true
+											}
+										}
+									}
+									return true
+								})
+								if rewritten {
+									bad = "the key variable " + ko.Name() + " is rewritten before it indexes the outer map " + core.ExprString(lx.X) + ": two entries may collide on one key, and the one that is kept depends on map iteration order"
+								}
+							}
+						}
 					case *types.Slice:
 						if o := core.ObjOf(inf, lx.X); o != nil && !local[o] {
 							slots = append(slots, o)
@@ -398,6 +420,15 @@ func classifyMapRange(c *core.Ctx, s *mapRangeSite) (idiom string, bad string) {
 			}
 			// receiver
 			if sel, ok := core.Unparen(x.Fun).(*ast.SelectorExpr); ok {
+				// import registrations of a jennifer File: the import block is rendered sorted by path, whatever the
+				// order they were registered in
+				if f != nil && core.IsMethod(f, "github.com/dave/jennifer/jen", "File", core.NameOf(f)) {
+					switch core.NameOf(f) {
+					case "Anon", "ImportName", "ImportNames", "ImportAlias":
+						idioms["I5 (jennifer import registration: rendered sorted)"] = true
+						return true
+					}
+				}
 				if tv, ok := inf.Types[sel.X]; ok && isSinkType(tv.Type) && !perEntrySink(sel.X) {
 					bad = fmt.Sprintf("%s writes to the shared sink %s in map iteration order", core.ExprString(x.Fun), core.ExprString(sel.X))
 					return false
